@@ -400,7 +400,7 @@ func child(sp Spec) {
 		if idx < from {
 			return true
 		}
-		if idx&255 == 0 && time.Now().After(deadline) {
+		if time.Now().After(deadline) {
 			complete = false
 			st.Expired = true
 			st.Next = idx
